@@ -108,6 +108,12 @@ def proxied_worker(args, scratch):
         current_guid = guid
         for n in range(args["requests"]):
             vid = "c04-%d-%d" % (args["shard"], n)
+            if n % 25 == 24:
+                # the recorded secure-channel state changes while the key stays latched (in the key keeper the key cell and the state cell
+                # are written at different moments of a transition): a latched key signs, whatever the recorded state says
+                st = r.choice(["disabled", "wireserver", "wireserverandimds", "Unknown", "disabled"])
+                w.shim.call("set_channel_state", state=st)
+                bump("recorded_state_changes_with_key_latched:%s" % st)
             if n % 60 == 59:
                 # the key keeper latches another key; connections that are open stay open
                 current_guid = "aaaaaaaa-%04x-4000-8000-%012x" % (n, args["shard"])
